@@ -1,8 +1,8 @@
 """C01 - every submitted task runs exactly once; a wait covers all of its work.  (DESIGN.md section 4, C01)"""
 from engine.facts import AnalysisBroken, atomic_op, atomic_ops, is_full_fence, has_acquire, has_release, SEQ_CST, RELAXED
 from engine.rules import (calls, calls_named, atomics_on, every_path_passes, last_member, oname, is_call_to, Defs,
-                          resolve_cond_source, edges_where, dominated_by_edges, lockset, root_of, expr_key)
-from rules.common import task_classes, k7_task_class, TBB_SRC
+                          resolve_cond_source, edges_where, dominated_by_edges, lockset, root_of, expr_key, Summaries)
+from rules.common import task_classes, k7_task_class, TBB_SRC, exit_coverage
 
 UNITS = ['src/tbb/arena_slot.cpp', 'src/tbb/arena.cpp', 'src/tbb/task_dispatcher.cpp', 'src/tbb/task.cpp',
          'src/tbb/small_object_pool.cpp', 'src/tbb/parallel_pipeline.cpp', 'drivers/algorithms.cpp']
@@ -570,54 +570,29 @@ def d10_task_memory(facts, rep):
 def d9_group_wait_epilogue(facts, rep):
     """"... or, only if its group was cancelled, skipped": a task_group's context stays cancelled until somebody resets it,
     and every task submitted meanwhile is skipped.  Each waiting call of task_group_base (wait, run_and_wait(F),
-    run_and_wait(task_handle)) therefore ends - on EVERY exit, normal or exceptional - with reading the cancellation state (the
-    status it returns) and resetting the context; otherwise a cancellation that was consumed by this wait leaks into the work
-    submitted afterwards, which is skipped although nobody cancelled it.  The epilogue is a lambda handed to the try_call proxy;
-    which proxy method runs its argument on every exit is read from the proxy's code: the argument is wrapped into a guard object
-    and the guard is not dismissed on the normal path."""
-    PROXY = 'tbb::detail::try_call_proxy::'
+    run_and_wait(task_handle)) therefore resets the context on EVERY exit, normal or exceptional (the wait rethrows what a task
+    threw); otherwise a cancellation that was consumed by this wait leaks into the work submitted afterwards, which is skipped
+    although nobody cancelled it.  Decided by rules.common.exit_coverage: CFG paths for the normal exit, the repo's scope-exit
+    idioms (try_call proxy methods classified by their code, raii_guard) and enclosing catch(...) handlers for the exceptional one."""
+    summ = Summaries(facts, max_depth=4)
 
-    def exception_only(g):
-        dis = calls_named(g, ('dismiss',))
-        grd = calls_named(g, ('make_raii_guard',))
-        if not grd:
-            return None
-        return bool(dis)
+    def is_wait(g, pos, e):
+        if not isinstance(e, int) or g.nodes[e].get('k') != 'call':
+            return False
+        d = g.callee(e) or {}
+        return d.get('q') in (R1 + 'execute_and_wait', D1 + 'wait', R1 + 'wait') or d.get('n') == 'execute_and_wait'
+
+    def resets(g, pos, e):
+        return isinstance(e, int) and g.nodes[e].get('k') == 'call' and (g.callee(e) or {}).get('q') == D1 + 'task_group_context::reset'
     n = 0
     for fn in sorted((f for f in facts.fns.values() if (f.cls or '') == 'tbb::detail::d2::task_group_base' and f.kind == 'method'), key=lambda f: f.q):
-        lams = [(pos, s, facts.fns.get(node.get('fn'))) for pos, s, node in fn.stmt_elems(('lambda',))]
-        lams = [(pos, s, g) for pos, s, g in lams if g is not None]
-        waits = [g for _, _, g in lams if calls_named(g, ('execute_and_wait', 'wait'))] + ([fn] if calls_named(fn, ('execute_and_wait',)) else [])
-        if not waits:
+        nops, normal_ok, exc_ok, notes = exit_coverage(facts, summ, fn, is_wait, resets, 'resets-group-context')
+        if not nops:
             continue
-        epi = [(pos, s, g) for pos, s, g in lams
-               if any((d or {}).get('q') == D1 + 'task_group_context::reset' for _, _, _, d in calls(g)) and
-               calls_named(g, ('is_group_execution_cancelled',))]
         n += 1
-        if not epi:
-            rep.ob('D9', 'K1', fn, 'a waiting call of the group reads the cancellation state and resets the context on every exit', False,
-                   'no epilogue (is_group_execution_cancelled + reset) is attached to the wait: a consumed cancellation stays in the context '
-                   'and every task submitted afterwards is skipped', key_extra='epilogue')
-            continue
-        bad = []
-        for pos, s, g in epi:
-            user = None
-            for p2, s2, node2, d2 in calls(fn):
-                if (d2 or {}).get('p', '').startswith(PROXY) and any(s in fn.subtree(a) for a in node2.get('a', [])):
-                    user = (node2, d2)
-            if user is None:
-                bad.append('the epilogue (line %s) is not handed to the try_call proxy' % fn.nodes[s].get('ln'))
-                continue
-            m = facts.fns.get(user[0].get('fn'))
-            eo = exception_only(m) if m is not None else None
-            if eo is None:
-                raise AnalysisBroken('try_call_proxy::%s: body not found / no guard object' % user[1].get('n'))
-            if eo:
-                bad.append('the epilogue (line %s) is handed to %s(), which dismisses its guard on the normal path: it runs only when the '
-                           'wait throws' % (fn.nodes[s].get('ln'), user[1].get('n')))
-        rep.ob('D9', 'K1', fn, 'a waiting call of the group reads the cancellation state and resets the context on every exit', not bad,
-               '; '.join(bad) + ' - after a wait that ended normally the status is reported as complete, the context stays cancelled and '
-               'every task submitted to the group afterwards is skipped although nobody cancelled it', key_extra='epilogue')
+        rep.ob('D9', 'K1', fn, 'a waiting call of the group resets the context on every exit, normal and exceptional', normal_ok and exc_ok,
+               '; '.join(notes) + ' - the context stays cancelled after the wait and every task submitted to the group afterwards is skipped '
+               'although nobody cancelled it (and a delivered exception is delivered again)', key_extra='epilogue')
     if n < 3:
         raise AnalysisBroken('task_group_base: %d waiting functions found (expected wait, run_and_wait(F), run_and_wait(task_handle))' % n)
 
